@@ -49,11 +49,15 @@ check('C30', title='The inter-thread queue never loses, duplicates or reorders',
       design_ref='DESIGN.md §3 C30',
       text='P producers x pushes and C consumers x try_pops run on the real queue with 2 lanes and 4-slot segments; every atomic read, set and CAS of FastFlow is a scheduling point. For every schedule within '
            'the preemption bound: the popped multiset (concurrent pops plus a final drain) equals the pushed multiset; the pop holding ticket k returns the element of the push holding ticket k (so elements leave '
-           'in slot-reservation order and each producer keeps its order); a pop reports empty only if the push holding the ticket it was waiting for had not published when the pop looked; all operations complete. Part tsan repeats the schedules of a small configuration under ThreadSanitizer (FastFlow\'s cursor reads and writes taken as acquire loads / release stores): the element and the lane buffers must be handed from producer to consumer with a happens-before edge.',
-      level_note='2 producers x 2 + 1 consumer x 4 at bound 3 and 2x2 + 2 consumers x 2 at bound 2 (quick); 2x2 + 1x4 at bound 4, 2x2 + 2x2 at bound 3 and 3x1 + 2x2 at bound 2 (thorough); a small configuration under ASan. 4-16 threads and weaker memory orderings are not covered.',
-      rule='execution = one complete schedule; non-trivial = at least one preemption', assumptions=_SCHED, budget={'quick': 200, 'thorough': 2500},
+           'in slot-reservation order and each producer keeps its order); a pop reports empty only if the push holding the ticket it was waiting for had not published when the pop looked; all operations complete. Parts full: every interleaving of a small configuration with NO preemption bound; the search is cut where a state recurs, the state being the cursors, the sequence arrays, the lanes (indices and contents), per thread a hash of everything its current operation has observed (position + observed values determine its locals), the (ticket, element, result) summary of every finished operation and the sticky verdict of a state-based monitor for the empty clause. Part tsan repeats the schedules of a small configuration under ThreadSanitizer (FastFlow\'s cursor reads and writes taken as acquire loads / release stores): the element and the lane buffers must be handed from producer to consumer with a happens-before edge.',
+      level_note='2 producers x 2 + 1 consumer x 4 at bound 3, 2x2 + 2 consumers x 2 at bound 2 and ALL interleavings of 2x1 + 1x2 (quick); 2x2 + 1x4 at bound 4, 2x2 + 2x2 at bound 3, 3x1 + 2x2 at bound 2 and ALL interleavings of 2x1 + 2x1, of 2x1 + 2x2 and of 2x2 + 1x2 (thorough); a small configuration under ASan. 4-16 threads and weaker memory orderings are not covered.',
+      rule='execution = one complete schedule; non-trivial = at least one preemption', assumptions=_SCHED, budget={'quick': 250, 'thorough': 5400},
       parts=[dict(name='p2c1', harness='c30_mpmc', variant='schedp', inproc=True, quick=dict(args=['p=2', 'pushes=2', 'c=1', 'pops=4', 'bound=3'], deadline=100), thorough=dict(args=['p=2', 'pushes=2', 'c=1', 'pops=4', 'bound=4'], deadline=600)),
              dict(name='p2c2', harness='c30_mpmc', variant='schedp', inproc=True, quick=dict(args=['p=2', 'pushes=2', 'c=2', 'pops=2', 'bound=2'], deadline=100), thorough=dict(args=['p=2', 'pushes=2', 'c=2', 'pops=2', 'bound=3'], deadline=800)),
              dict(name='p3c2', harness='c30_mpmc', variant='schedp', inproc=True, thorough_only=True, thorough=dict(args=['p=3', 'pushes=1', 'c=2', 'pops=2', 'bound=2'], deadline=600)),
+             # one process each: the cut-at-recurring-state search keeps its visited set in memory, shards would only repeat each other
+             dict(name='full', harness='c30_mpmc', variant='schedp', inproc=True, quick=dict(args=['p=2', 'pushes=1', 'c=1', 'pops=2', 'full=1'], deadline=100, shards=1), thorough=dict(args=['p=2', 'pushes=1', 'c=2', 'pops=1', 'full=1'], deadline=600, shards=1)),
+             dict(name='full-c2x2', harness='c30_mpmc', variant='schedp', inproc=True, thorough_only=True, thorough=dict(args=['p=2', 'pushes=1', 'c=2', 'pops=2', 'full=1'], deadline=1500, shards=1)),
+             dict(name='full-p2x2', harness='c30_mpmc', variant='schedp', inproc=True, thorough_only=True, thorough=dict(args=['p=2', 'pushes=2', 'c=1', 'pops=2', 'full=1'], deadline=900, shards=1)),
              dict(name='tsan', harness='c30_mpmc', variant='tsan', inproc=True, quick=dict(args=['p=2', 'pushes=2', 'c=2', 'pops=2', 'bound=1'], deadline=100), thorough=dict(args=['p=2', 'pushes=2', 'c=2', 'pops=2', 'bound=2'], deadline=700)),
              dict(name='asan', harness='c30_mpmc', variant='sched', inproc=True, quick=dict(args=['p=2', 'pushes=1', 'c=1', 'pops=2', 'bound=1'], deadline=90), thorough=dict(args=['p=2', 'pushes=2', 'c=2', 'pops=2', 'bound=1'], deadline=400))])
